@@ -398,6 +398,11 @@ class Engine(
                 # operands are only Selects if they need to be subqueries.
                 new_lhs, new_lhs_needs_projection = lhs.strip()
                 new_rhs, new_rhs_needs_projection = rhs.strip()
+                if new_rhs_needs_projection and not (new_rhs.columns - rhs.columns).isdisjoint(new_lhs.columns):
+                    # A column hidden by the right operand's Projection would
+                    # take precedence over the left operand's column of the
+                    # same name, so that Projection has to stay in a subquery.
+                    new_rhs, new_rhs_needs_projection = rhs, False
                 if new_lhs_needs_projection or new_rhs_needs_projection:
                     projection = Projection(frozenset(lhs.columns | rhs.columns))
                 else:
